@@ -26,7 +26,11 @@ class JsonRPC:
     def wsgi_app(self, environ: Dict[str, Any], start_response: Callable[..., Any]) -> Iterable[bytes]:
         environ['app'] = self
         request = werkzeug.Request(environ)
-        response = self._rpc_handle(request)
+        try:
+            response = self._rpc_handle(request)
+        except exceptions.HTTPException as e:
+            return e(environ, start_response)
+
         return response(environ, start_response)
 
     @property
@@ -44,7 +48,7 @@ class JsonRPC:
         :returns: werkzeug response
         """
 
-        if request.content_type not in pjrpc.common.REQUEST_CONTENT_TYPES:
+        if request.mimetype not in pjrpc.common.REQUEST_CONTENT_TYPES:
             raise exceptions.UnsupportedMediaType()
 
         try:
